@@ -743,9 +743,7 @@ Proof.
     set (s1 := set_cbq s (cbq s ++ [r])).
     destruct (started s1 && true && valid && negb (q_is_full s1)) eqn:E.
     + assert (Est : started s = true) by (subst s1; cbn in E; destruct (started s); [reflexivity|discriminate]).
-      change (reqC s1) with (reqC s).
-      destruct (1 <=? reqC s) eqn:Erq; [apply Z.leb_le in Erq|apply Z.leb_gt in Erq];
-        (constructor; subst s1; cbn; rewrite ?Ecc; fin; closer Sf).
+      constructor; subst s1; cbn; rewrite ?Ecc; fin; closer Sf.
     + replace (started s1 && false && valid && negb (q_is_full s1)) with false
         by (destruct (started s1); reflexivity).
       constructor; subst s1; cbn; rewrite ?remove_last_app, ?Ecc; fin; closer Sf.
